@@ -19,6 +19,21 @@ pub(crate) const DEFAULT_ITEM_LIFETIME_MS: u64 = 30000;
 /// clean the cache every 15s by default
 pub(crate) const DEFAULT_CACHE_CLEAN_FREQUENCY_MS: u64 = 15000;
 
+/// The clock read by the cache. With `--cfg akd_verif` it follows tokio's (pausable)
+/// clock so that a simulator can drive item expiry and clean cadence; otherwise it is
+/// exactly `Instant::now()`.
+#[cfg(not(akd_verif))]
+#[inline(always)]
+pub(crate) fn cache_now() -> Instant {
+    Instant::now()
+}
+
+/// See above: simulated-clock variant
+#[cfg(akd_verif)]
+pub(crate) fn cache_now() -> Instant {
+    tokio::time::Instant::now().into_std()
+}
+
 pub(crate) struct CachedItem {
     pub(crate) expiration: Instant,
     pub(crate) data: DbRecord,
